@@ -119,6 +119,93 @@ namespace oratio_verif
       }
       return r;
     }
+    // linear real arithmetic: values, bounds with their reasons, tableau rows in the order of the map, assertions by
+    // controlling variable, assertion watches (vector order), row watches (sorted by basic variable), the undo layers
+    // (oldest first, each sorted by bound index), the expression and assertion tables sorted by key
+    static size_t lra_nvars(const lra_theory &th) { return th.vals.size(); }
+    static std::string lin_str(const lin &l)
+    {
+      std::string s = "L" + std::to_string(l.vars.size());
+      for (const auto &[v, c] : l.vars)
+        s += " " + std::to_string(v) + " " + std::to_string(c.numerator()) + "/" + std::to_string(c.denominator());
+      return s + " " + std::to_string(l.known_term.numerator()) + "/" + std::to_string(l.known_term.denominator());
+    }
+    static std::string lra_str(const lra_theory &th)
+    {
+      const size_t n = th.vals.size();
+      std::string r = "n=" + std::to_string(n) + " v:";
+      for (size_t v = 0; v < n; ++v)
+        r += " " + hv_show(th.vals[v]);
+      r += " b:";
+      for (size_t v = 0; v < n; ++v)
+        r += " [" + hv_show(th.c_bounds[lra_theory::lb_index(v)].value) + " " + lit_str(th.c_bounds[lra_theory::lb_index(v)].reason) + " " + hv_show(th.c_bounds[lra_theory::ub_index(v)].value) + " " + lit_str(th.c_bounds[lra_theory::ub_index(v)].reason) + "]";
+      r += " t:";
+      for (const auto &[x, rw] : th.tableau)
+        r += " " + std::to_string(x) + "=" + lin_str(rw->l) + ";";
+      r += " a:";
+      {
+        std::vector<var> bs;
+        for (const auto &[b, a] : th.v_asrts)
+          bs.push_back(b);
+        std::sort(bs.begin(), bs.end());
+        for (const auto &b : bs)
+        {
+          const auto &a = th.v_asrts.at(b);
+          r += " " + std::to_string(b) + "=" + lit_str(a->b) + ":x" + std::to_string(a->x) + (a->o == leq ? "<=" : ">=") + hv_show(a->v);
+        }
+      }
+      r += " aw:";
+      for (size_t v = 0; v < th.a_watches.size(); ++v)
+        if (!th.a_watches[v].empty())
+        {
+          r += " " + std::to_string(v) + ":";
+          for (size_t k = 0; k < th.a_watches[v].size(); ++k)
+            r += (k ? "," : "") + std::to_string(variable(th.a_watches[v][k]->b));
+        }
+      r += " tw:";
+      for (size_t v = 0; v < th.t_watches.size(); ++v)
+        if (!th.t_watches[v].empty())
+        {
+          std::vector<var> xs;
+          for (const auto &rw : th.t_watches[v])
+            xs.push_back(rw->x);
+          std::sort(xs.begin(), xs.end());
+          r += " " + std::to_string(v) + ":";
+          for (size_t k = 0; k < xs.size(); ++k)
+            r += (k ? "," : "") + std::to_string(xs[k]);
+        }
+      r += " layers:" + std::to_string(th.layers.size());
+      for (const auto &ly : th.layers)
+      {
+        std::vector<size_t> ix;
+        for (const auto &[i, b] : ly)
+          ix.push_back(i);
+        std::sort(ix.begin(), ix.end());
+        r += "{";
+        for (const auto &i : ix)
+          r += " " + std::to_string(i) + "=" + hv_show(ly.at(i).value) + " " + lit_str(ly.at(i).reason);
+        r += "}";
+      }
+      r += " ex:";
+      {
+        std::vector<std::pair<std::string, var>> es(th.exprs.begin(), th.exprs.end());
+        std::sort(es.begin(), es.end());
+        for (const auto &[k, v] : es)
+          r += " \"" + k + "\"=" + std::to_string(v) + ";";
+      }
+      r += " sa:";
+      {
+        std::vector<std::pair<std::string, lit>> es;
+        for (const auto &[k, l] : th.s_asrts)
+          es.push_back({k, l});
+        std::sort(es.begin(), es.end(), [](const auto &a, const auto &b)
+                  { return a.first < b.first; });
+        for (const auto &[k, l] : es)
+          r += " \"" + k + "\"=" + lit_str(l) + ";";
+      }
+      return r;
+    }
+    static std::vector<lit> lra_cnfl(const lra_theory &th) { return th.cnfl; }
     static std::string dl_val(const I &v) { return v == idl_theory::inf() ? "inf" : std::to_string(v); }
     static std::string dl_val(const inf_rational &v) { return hv_show(v); }
     static std::string hv_show(const inf_rational &r)
